@@ -97,7 +97,7 @@ Definition outcome_rel (a b : outcome) : Prop :=
 (** what "empty over the wire" decodes to *)
 Definition empty_result (U : universe) (d : descriptor) : pyv :=
   match md_out d with
-  | MWrap (_ :: _ :: _ as fs) => PTuple (repeat VNone (length fs))
+  | MWrap ((_ :: _ :: _) as fs) => PTuple (repeat VNone (length fs))
   | _ => PVal VNone
   end.
 
